@@ -5,7 +5,7 @@ Two workloads, both decided by a literal O(n^2) python-float oracle:
 * point sets (`kind='array'`): every Pareto routine of the library is run on
   adversarial multisets (small lattices => duplicates and single-coordinate
   ties, +-inf, constant first coordinate, chains, antichains, float64-only
-  distinctions, NaN rows) and compared with the definition:
+  distinctions, near ties that float32 still tells apart, NaN rows) and compared with the definition:
   is_pareto_optimal (naive / divide-and-conquer at five thresholds over both
   bases / JAX), is_frontier + get_frontier at several shard counts,
   is_pareto_optimal_against (strict and non-strict, each against its own
@@ -21,7 +21,9 @@ Two workloads, both decided by a literal O(n^2) python-float oracle:
   are identified by name: trials list their metrics in their own order, the
   study configuration lists objectives and safety metrics in any order under
   several naming schemes, unconfigured metrics carry names close to
-  configured ones. The two workloads are interleaved.
+  configured ones. Objective values are small integers or near ties (values
+  differing by far less than their magnitude: close is not equal), safety values
+  sit on / a hair beside their threshold. The two workloads are interleaved.
 """
 import math
 
@@ -32,10 +34,12 @@ from vv import c11_study
 PROPERTY = 'C11'
 LEVEL = 'exploration'
 RULE = (
-    'point sets: multisets of 0..40 (thorough 0..90) points in 1..4 dims from 14 '
+    'point sets: multisets of 0..40 (thorough 0..90) points in 1..4 dims from 15 '
     'generator classes (lattices of 2/3/5 values, negative lattice, +-inf entries, few '
     'distinct points repeated, constant first coordinate, chain, antichain, multiples '
-    'of 1/8, float64-only distinctions, huge magnitudes, copies of one point, NaN rows) x '
+    'of 1/8, float64-only distinctions, huge magnitudes, copies of one point, NaN rows, '
+    'near ties exact in float32: per coordinate steps of 1 on +-2^20 / 2^-20 on +-1 / '
+    '2^-40 around 0, shared by the point set and the against set) x '
     '~40 routine configurations; history: 0..14 trials of 9 kinds x 1..3 objectives with '
     'mixed goals x 0..3 safety metrics (thresholds 0/0.5/1/2, each reported by a trial '
     'with probability 1/0.85/0.6; trials breaking a threshold often carry the best '
@@ -44,11 +48,15 @@ RULE = (
     'order, names differing by case / prefix), configuration order canonical or shuffled '
     '(safety metrics before / between objectives), metrics listed by every trial in '
     'config order / one other common order / its own order, unconfigured metrics named '
-    'like configured ones. Point sets and histories are interleaved in rounds (32:10). '
+    'like configured ones; x value profile: small integers (40%) or near ties (steps of '
+    '1 on ~2^20 / 1e6, of 2^-20 on ~1, of 2^-40 around 0, all float32-exact; or of 2^-30 '
+    'on 0.1/1/1e6, float64 only: GetBestTrials is then skipped and counted), non-'
+    'qualifying trials then carry values only just better than the best, safety values '
+    'lie on / 2^-20 beside their threshold. Point sets and histories are interleaved in rounds (32:10). '
     'Non-trivial = at least one dominated point / non-qualifying trial or a tie; distinct '
     '= hash of (class, n, d, #distinct points, #optimal, tie pattern, non-finite pattern) '
     'resp. (goals, shape and sortedness of the configuration order, multiset of trial '
-    'kinds, #optimal, mode, count, reporting-order profile).')
+    'kinds, #optimal, mode, count, reporting-order profile, value profile).')
 ASSUMPTIONS = [
     'oracle: p dominates q iff p>=q in every coordinate and p>q in one (python floats, '
     'IEEE: NaN dominates nothing and is dominated by nothing)',
@@ -75,6 +83,13 @@ ASSUMPTIONS = [
     'definition; re-asking the same history in configuration order / canonical '
     'configuration order / canonical names is only used to name a disagreement '
     '(mechanism suffix :depends-on-metric-report-order / -config-order / -names)',
+    'near ties: numbers are compared exactly, as the definition does (a trial whose value '
+    'is merely close to the best is dominated); no tolerance is granted to any route. '
+    'Near-tie histories whose values float32 cannot hold exactly are not given to '
+    'GetBestTrials (float32 labels). The suffix :near-tie-with-an-optimal-trial / '
+    ':near-tie-with-a-reported-trial of a mechanism id is computed from the closeness '
+    'relation (|a-b| <= 1e-7 + 1e-4 max(|a|,|b|)) of the wrongly reported / missing '
+    'trials to the optimal / reported ones and only names the disagreement',
     'order of optimal trials is unspecified: compared as sets of trial ids (duplicates '
     'in the answer are a violation)',
     'optimal_trials(count=k) raising ValueError("Count not supported.") is a documented '
@@ -103,6 +118,10 @@ REQUIRED_COUNTERS = [
     'hist_unsafe:an-earlier-safety-metric-unreported',
     'hist_unsafe:an-earlier-safety-metric-within-threshold',
     'hist_unsafe:a-later-safety-metric-within-threshold',
+    # near ties: a dominated point / trial within a hair of an optimal one
+    'sets_near_tie_decides_answer', 'sets_near_tie_decides_answer:jax',
+    'hist:near_tie_decides_answer:single', 'hist:near_tie_decides_answer:multi',
+    'hist:values_only_float64_holds', 'hist:safety_value_near_threshold',
     'array_cases_run', 'history_cases_run',
 ]
 MIN_DISTINCT = {'quick': 600, 'thorough': 4000}
@@ -162,7 +181,7 @@ def brute_against(P, A, strict):
 # generators
 # ---------------------------------------------------------------------------
 CLASSES = ['lat2', 'lat3', 'lat5', 'neg', 'inf', 'dups', 'tie0', 'chain', 'anti',
-           'frac', 'f64only', 'huge', 'copies', 'nan']
+           'frac', 'f64only', 'huge', 'copies', 'nan', 'near32']
 F32_UNSAFE = {'f64only', 'huge'}
 INF = float('inf')
 
@@ -192,7 +211,11 @@ def gen_value(rng, cls):
   return float(rng.randint(0, 2))
 
 
-def gen_points(rng, cls, n, d):
+NEAR_COLS = [(2.0 ** 20, 1.0), (-2.0 ** 20, 1.0), (1.0, 2.0 ** -20), (-1.0, 2.0 ** -20),
+             (0.0, 2.0 ** -40)]
+
+
+def gen_points(rng, cls, n, d, cols=None):
   if cls == 'dups':
     k = rng.randint(1, 4)
     base = [[float(rng.randint(0, 2)) for _ in range(d)] for _ in range(k)]
@@ -213,6 +236,11 @@ def gen_points(rng, cls, n, d):
       v = float(rng.randint(0, max(1, n // 2)))
       pts.append([v if k % 2 == 0 else -v for k in range(d)])
     return pts
+  if cls == 'near32':
+    # near ties that float32 still tells apart (so the JAX routines see them too):
+    # per coordinate steps of 1 on +-2**20, of 2**-20 on +-1, or of 2**-40 around 0
+    cols = cols or [rng.choice(NEAR_COLS) for _ in range(d)]
+    return [[b + rng.randint(-1, 1) * s for b, s in cols] for _ in range(n)]
   pts = [[gen_value(rng, cls) for _ in range(d)] for _ in range(n)]
   if cls == 'tie0':
     c = float(rng.randint(0, 2))
@@ -242,11 +270,12 @@ def gen_array_case(rng, tier, index):
   cls = CLASSES[index % len(CLASSES)]
   n = gen_n(rng, tier)
   d = rng.choice([1, 2, 2, 3, 3, 4])
-  P = gen_points(rng, cls, n, d)
+  cols = [rng.choice(NEAR_COLS) for _ in range(d)] if cls == 'near32' else None
+  P = gen_points(rng, cls, n, d, cols)
   # second set for the *_against routines: same class, often sharing points
   m = rng.choice([0, 1, 2, 3, 4, 5, 8, 12])
   acls = cls if cls != 'nan' else 'lat3'
-  A = gen_points(rng, acls, m, d)
+  A = gen_points(rng, acls, m, d, cols)
   if P and A and rng.random() < 0.6:
     for _ in range(rng.randint(1, 3)):
       A[rng.randrange(len(A))] = list(rng.choice(P))
@@ -395,6 +424,14 @@ def check_array(ctx, case, jax_on=True):
     ctx.count('sets_with_dominated_points')
   if has_inf:
     ctx.count('sets_with_inf')
+  near_decides = any(
+      c11_study.near_tied(p, q) for p, e in zip(P, exp) if not e
+      for q, f in zip(P, exp) if f)
+  if near_decides:
+    # a dominated point within a hair of an optimal one
+    ctx.count('sets_near_tie_decides_answer')
+    if jax_on and cls not in F32_UNSAFE:
+      ctx.count('sets_near_tie_decides_answer:jax')
   jax_ok = jax_on and cls not in F32_UNSAFE
   if jax_on and not jax_ok:
     ctx.count('jax_skipped_not_float32_exact')
